@@ -19,8 +19,8 @@ META = dict(
           "that as 'try the next overload'); std::function parameters, variadic functions and dynamic (script) overloads with guards are not in the catalogue."),
     design_ref="DESIGN.md §6 C06")
 
-KINDS = "int_var int_const int_ref int_cref double_var double_const bool_var string_var string_const string_ref base_var base_const base_ref base_cref base_sp base_spc base_ptr derived_var derived_const derived_ref derived_sp other_var long_var float_var undef".split()
-ONE = list(range(26))
+KINDS = "int_var int_const int_ref int_cref double_var double_const bool_var string_var string_const string_ref base_var base_const base_ref base_cref base_sp base_spc base_ptr derived_var derived_const derived_ref derived_sp other_var long_var float_var undef both_var both_ref both_sp both_ptr both_cref".split()
+ONE = list(range(30))
 TWO = list(range(100, 112))
 
 
@@ -44,7 +44,7 @@ def run(ctx):
         if rng.chance(3, 4):
             fids = rng.shuffle(ONE)[:rng.range(1, 5)]
             if rng.chance(1, 3):      # bias towards overloads on related types
-                fam = rng.choice([[12, 13, 14, 15, 16, 17, 18, 19, 20, 22], [0, 1, 2, 3, 4, 5, 6, 7, 22, 23, 24, 25], [9, 10, 11, 22], [0, 5, 8, 24, 25, 23]])
+                fam = rng.choice([[12, 13, 14, 15, 16, 17, 18, 19, 20, 22], [26, 27, 28, 29, 22], [0, 1, 2, 3, 4, 5, 6, 7, 22, 23, 24, 25], [9, 10, 11, 22], [0, 5, 8, 24, 25, 23]])
                 fids = rng.shuffle(fam)[:rng.range(1, 4)]
             args = [rng.choice(KINDS)]
             if rng.chance(1, 12):
@@ -86,7 +86,7 @@ def run(ctx):
         ctx.violation("input", {"mode": "dispatch", "case": l, "observed": o, "expected": "a call enters exactly one overload exactly once, or none and raises"})
     ctx.cov["cast_matrix"] = {"kinds": len(KINDS), "params": len(ONE), "exhaustive": True}
     ctx.cov["rule"] = ("exhaustive (value kind x parameter form) cast matrix (%d cells) + seeded (overload subset, registration order, argument tuple) dispatch cases over a "
-                       "catalogue of 26 one-parameter and 12 two-parameter C++ functions; non-trivial = a function was entered / a cast succeeded; distinct = distinct case lines" % len(casts))
+                       "catalogue of 30 one-parameter and 12 two-parameter C++ functions; non-trivial = a function was entered / a cast succeeded; distinct = distinct case lines" % len(casts))
     for s in (casts[17], disp[0][0], disp[-1][0]):
         ctx.sample(s)
     C.conclude(ctx, found > 0)
